@@ -1305,3 +1305,22 @@ package pfcp
 //@     unfold srvWF(s)
 //@   after call handleTimeout#2:
 //@     fold srvWF(s)
+
+// ---------------------------------------------------------------------------------------------
+// What runs outside the event loop (supporting evidence for the ownership argument, not a decision of C17): these
+// functions are proved to write nothing but the channel they hand their item to.
+//@ func (s *PfcpServer) NotifySessReport(sr report.SessReport)
+//@   requires s != nil && s.srCh != nil && !closed(s.srCh)
+//@   modifies chanstate(s.srCh)
+//@   serves C10 C07
+//@ func (s *PfcpServer) NotifyTransTimeout(trType TransType, trID string)
+//@   requires s != nil && s.trToCh != nil && !closed(s.trToCh)
+//@   modifies chanstate(s.trToCh)
+//@   serves C06 C09 C07
+//@ func (s *PfcpServer) receiver(wg *sync.WaitGroup)
+//@   requires s != nil && s.conn != nil && s.rcvCh != nil && !closed(s.rcvCh) && wg != nil
+//@   modifies chanstate(s.rcvCh)
+//@   serves C07
+//@   loop for():
+//@     modifies chanstate(s.rcvCh)
+//@     invariant [open] s != nil && s.conn != nil && s.rcvCh != nil && !closed(s.rcvCh)
